@@ -26,7 +26,8 @@ Definition upd {A} (f : string -> A) (k : string) (v : A) : string -> A :=
   fun x => if String.eqb x k then v else f x.
 Definition mem (n : string) (l : list string) : bool := existsb (String.eqb n) l.
 
-Inductive cliname := Long (s : string) | Short (s : string).
+(** [Bare]: a word of argv that is neither an option nor the value of one (the lexer's positional option) *)
+Inductive cliname := Long (s : string) | Short (s : string) | Bare.
 Definition cliitem := (cliname * list tok)%type.        (* one option occurrence as the lexer delivers it *)
 Definition item := (string * list tok)%type.            (* occurrence with its key in the variables map *)
 
@@ -62,6 +63,7 @@ Section Model.
               | _ => None
               end
       end
+    | Bare => None                                       (* too_many_positional_options_error *)
     end.
 
   Fixpoint resolve_all (l : list cliitem) : option (list item) :=
@@ -187,8 +189,13 @@ Section Model.
     | _ => (dflt, false)
     end.
 
+  (** the occurrences the command-line parser hands to store(): without a positional description the
+      bare words are not among them *)
+  Definition words (P : prog) (cli : list cliitem) : list cliitem :=
+    if p_nopos P then cli else filter (fun c => match fst c with Bare => false | _ => true end) cli.
+
   Definition parse (P : prog) (cli : list cliitem) (fs : tok -> fsent) (dflt : fsent) : outcome :=
-    match resolve_all cli with
+    match resolve_all (words P cli) with
     | None => Fail
     | Some items =>
       match exec_list items [] (p_cli P) st0 with
